@@ -32,8 +32,20 @@ var aeads = []uint16{hpkex.AES128GCM, hpkex.AES256GCM, hpkex.ChaCha20}
 type input struct {
 	class   string
 	client  []byte
+	pre     []byte // backend bytes written right after NewConn, before any Read (e.g. a HelloRetryRequest)
 	backend []byte
 	keys    []ech.Key
+}
+
+// fragment cuts a handshake message into records at PRNG-chosen points.
+func fragment(rng *mrand.Rand, msg []byte, maxFrag int) []byte {
+	var out []byte
+	for len(msg) > 0 {
+		n := 1 + rng.IntN(min(len(msg), maxFrag))
+		out = append(out, tlswire.Record(22, 0x0301, msg[:n])...)
+		msg = msg[n:]
+	}
+	return out
 }
 
 // mutate applies byte-level damage.
@@ -172,7 +184,89 @@ func gen(rng *mrand.Rand, i int, keys []echgen.KeyPair) input {
 		of := echgen.Gen(rng, k, aeads[rng.IntN(3)], o)
 		return of, of.Outer
 	}
-	switch i % 10 {
+	switch i % 13 {
+	case 10: // fragmented first flights, well-formed and hostile
+		in.class = "fragmented-hello"
+		of, _ := base()
+		msg := of.Outer.Message()
+		switch rng.IntN(6) {
+		case 0: // legal: cut anywhere
+			in.client = fragment(rng, msg, []int{3, 50, 16384}[rng.IntN(3)])
+		case 1: // the first record carries 1..3 bytes of the handshake header and the announced length is huge
+			l := []int{65537, 100000, 1 << 20, 0xffffff}[rng.IntN(4)]
+			hdr := []byte{1, byte(l >> 16), byte(l >> 8), byte(l)}
+			k := 1 + rng.IntN(3)
+			in.client = tlswire.Record(22, 0x0301, hdr[:k])
+			in.client = append(in.client, tlswire.Record(22, 0x0301, hdr[k:])...)
+			for len(in.client) < 400000 {
+				in.client = append(in.client, tlswire.Record(22, 0x0301, hellogen.Bytes(rng, 16384))...)
+			}
+		case 2: // huge announced length in a complete header
+			l := []int{65537, 1 << 20, 0xffffff}[rng.IntN(3)]
+			in.client = tlswire.Record(22, 0x0301, append([]byte{1, byte(l >> 16), byte(l >> 8), byte(l)}, hellogen.Bytes(rng, 100)...))
+			for len(in.client) < 300000 {
+				in.client = append(in.client, tlswire.Record(22, 0x0301, hellogen.Bytes(rng, 16384))...)
+			}
+		case 3: // a non-handshake record in the middle of the message
+			cut := 1 + rng.IntN(len(msg)-1)
+			in.client = tlswire.Record(22, 0x0301, msg[:cut])
+			in.client = append(in.client, tlswire.Record(byte([]int{20, 21, 23}[rng.IntN(3)]), 0x0303, hellogen.Bytes(rng, 1+rng.IntN(5)))...)
+			in.client = append(in.client, tlswire.Record(22, 0x0301, msg[cut:])...)
+		case 4: // empty handshake records between the fragments
+			cut := 1 + rng.IntN(len(msg)-1)
+			in.client = tlswire.Record(22, 0x0301, msg[:cut])
+			for k := rng.IntN(4); k >= 0; k-- {
+				in.client = append(in.client, []byte{22, 3, 1, 0, 0}...)
+			}
+			in.client = append(in.client, tlswire.Record(22, 0x0301, msg[cut:])...)
+		default: // damaged message, fragmented
+			in.client = fragment(rng, mutate(rng, msg), 300)
+		}
+	case 11, 12: // accepted offer, HelloRetryRequest, then a hostile second hello
+		in.class = "hrr-then-hostile-second-hello"
+		in.keys = []ech.Key{k.TLSKey()}
+		of, _ := base()
+		in.client = of.Record()
+		in.pre = tlswire.HRRRecord(of.Outer.SessionID, 23)
+		re := of.Retry(rng, echgen.DefaultOpts())
+		var second []byte
+		switch rng.IntN(7) {
+		case 0:
+			second = record(22, structural(rng, re.Outer).Message())
+		case 1: // a retry whose outer hello does not offer TLS 1.3 any more
+			o2 := re.Outer.Clone()
+			if vi := o2.Find(tlswire.ExtSupportedVersions); vi >= 0 {
+				if rng.IntN(2) == 0 {
+					o2.Exts = append(o2.Exts[:vi], o2.Exts[vi+1:]...)
+				} else {
+					o2.Exts[vi] = tlswire.SupportedVersions(0x0303)
+				}
+			}
+			second = o2.HelloRecord(0x0303)
+		case 2:
+			second = record(22, mutate(rng, re.Outer.Message()))
+		case 3: // plain hello without ECH
+			second = hellogen.Plain(rng, hellogen.RandomOpts(rng)).HelloRecord(0x0303)
+		case 4: // legal retry, fragmented
+			second = fragment(rng, re.Outer.Message(), []int{3, 40, 16384}[rng.IntN(3)])
+		case 5: // retry with a huge announced length split over the header
+			second = append(tlswire.Record(22, 0x0303, []byte{1, 0xff}), tlswire.Record(22, 0x0303, append([]byte{0xff, 0xff}, hellogen.Bytes(rng, 200)...))...)
+			for len(second) < 300000 {
+				second = append(second, tlswire.Record(22, 0x0303, hellogen.Bytes(rng, 16384))...)
+			}
+		default: // authentic retry whose inner is hostile
+			si := structural(rng, re.Inner)
+			si.SessionID = nil
+			o2 := echgen.GenOuterBase(rng, k.PublicName, nil, 0)
+			o2.SessionID = append([]byte{}, of.Outer.SessionID...)
+			of.Sender.SetSeq(1)
+			echgen.SealInto(o2, -1, of.Sender, of.AEAD, k.ID, nil, si.Body())
+			second = o2.HelloRecord(0x0303)
+		}
+		if rng.IntN(3) == 0 {
+			in.client = append(in.client, tlswire.Record(20, 0x0303, []byte{1})...)
+		}
+		in.client = append(in.client, second...)
 	case 0: // raw garbage
 		in.class = "random-bytes"
 		in.client = hellogen.Bytes(rng, rng.IntN(200))
@@ -317,6 +411,11 @@ func drive(r *mon.Run, work string, idx int, rng *mrand.Rand, in input, measure 
 		conn, err := ech.NewConn(context.Background(), tc, opts...)
 		check("NewConn", a0)
 		r.Count("newconn_calls", 1)
+		// NewConn may reassemble a fragmented ClientHello, but only up to the size of a handshake message plus the record being read
+		if used := tc.Consumed(); used > 65536+4+2*maxRecord {
+			r.Violate(work, idx, "balloon:newconn-consumed", fmt.Sprintf("NewConn consumed %d bytes of client input for one ClientHello", used), c)
+			return
+		}
 		if err != nil {
 			r.Count("newconn_errors", 1)
 			return
@@ -325,16 +424,26 @@ func drive(r *mon.Run, work string, idx int, rng *mrand.Rand, in input, measure 
 		if conn.ECHAccepted() {
 			r.Count("newconn_accepted", 1)
 		}
+		if len(in.pre) > 0 {
+			if _, err := conn.Write(in.pre); err != nil {
+				r.Count("pre_write_errors", 1)
+			} else {
+				r.Count("hrr_written_before_second_hello", 1)
+			}
+		}
 		bufSize := []int{1, 32768}[rng.IntN(2)]
 		if bufSize == 1 && len(in.client) > 3000 {
 			bufSize = 64
+		}
+		if len(in.client) > 100000 {
+			bufSize = 32768
 		}
 		buf := make([]byte, bufSize)
 		delivered, idle := 0, 0
 		wpos := 0
 		var rerr, werr error
 		for step := 0; rerr == nil || (werr == nil && wpos < len(in.backend)); step++ {
-			if step > 4*(len(in.client)+len(in.backend))+100 {
+			if step > 4*(len(in.client)+len(in.backend))+1000 {
 				r.Violate(work, idx, "hang:no-termination", "Read/Write loop did not terminate although the transport is finite", c)
 				return
 			}
@@ -354,7 +463,7 @@ func drive(r *mon.Run, work string, idx int, rng *mrand.Rand, in input, measure 
 					idle = 0
 				}
 				// bytes held inside the Conn = consumed from the transport - delivered (+ growth from a rewritten hello)
-				if held := tc.Consumed() - delivered; held > lagBound {
+				if held := tc.Consumed() - delivered; held > lagBound+65536 {
 					r.Violate(work, idx, "balloon:read-buffer", fmt.Sprintf("%d client bytes held inside the Conn after a Read returned", held), c)
 					return
 				}
